@@ -821,6 +821,78 @@ func raceLogout(r *rand.Rand, o *hout.Out, useStop bool) {
 	dh.Stop()
 }
 
+// reuseResend (C10): an application that re-populates and re-sends one message object (as the repository's own
+// TestSessionClosing does with a TestRequest), then a ResendRequest over those numbers: every retransmission must be
+// byte-identical to the first transmission under that number.
+func reuseResend(r *rand.Rand, o *hout.Out, fresh bool) {
+	h := simplefixgo.NewAcceptorHandler(context.Background(), "35", 256)
+	store := memory.NewStorage()
+	s, err := session.NewAcceptorSession(makeOpts(), h, &session.LogonSettings{LogonTimeout: time.Second, CloseTimeout: time.Second,
+		HeartBtLimits: &session.IntLimits{Min: 1, Max: 600}}, func(*session.LogonSettings) error { return nil }, store, store)
+	if err != nil {
+		panic(err)
+	}
+	sig := make(chan struct{}, 4)
+	h.HandleIncoming("ZZ", func([]byte) bool { sig <- struct{}{}; return true })
+	_ = s.Run()
+	go func() { _ = h.Run() }()
+	feed := func(b []byte) {
+		h.ServeIncoming(b)
+		h.ServeIncoming(sentinel)
+		select {
+		case <-sig:
+		case <-time.After(3 * time.Second):
+		}
+	}
+	feed(frame(body([]fld{{"35", "A"}, {"49", "PEER"}, {"56", "ME"}, {"34", "1"}, {"52", "20240101-00:00:00.000"}, {"98", "0"}, {"108", "500"}})))
+	first := map[string][]byte{} // sequence number -> first transmission
+	drain := func() (got [][]byte) {
+		for len(h.Outgoing()) > 0 {
+			got = append(got, <-h.Outgoing())
+		}
+		return
+	}
+	for _, m := range drain() {
+		_, f := render(m)
+		first[f["34"]] = m
+	}
+	k := 2 + r.Intn(5)
+	m := fixgen.NewMarketDataRequest()
+	for i := 0; i < k; i++ {
+		if fresh {
+			m = fixgen.NewMarketDataRequest()
+		}
+		m.SetMDReqID(fmt.Sprintf("req-%d", i))
+		_ = s.Send(m)
+		for _, w := range drain() {
+			_, f := render(w)
+			first[f["34"]] = w
+		}
+	}
+	from := 2 + r.Intn(k)
+	to := from + r.Intn(k+2-from)
+	feed(frame(body([]fld{{"35", "2"}, {"49", "PEER"}, {"56", "ME"}, {"34", "2"}, {"52", "20240101-00:00:00.000"}, {"7", strconv.Itoa(from)}, {"16", strconv.Itoa(to)}})))
+	resent := drain()
+	kind := "reused-object"
+	if fresh {
+		kind = "fresh-objects"
+	}
+	desc := fmt.Sprintf("%s: %d application sends, ResendRequest %d..%d", kind, k, from, to)
+	if len(resent) != to-from+1 {
+		o.Fail("C10", "resent-count", fmt.Sprintf("%s: %d messages retransmitted", desc, len(resent)))
+	}
+	for i, w := range resent {
+		want := first[strconv.Itoa(from+i)]
+		if !bytes.Equal(w, want) {
+			o.Fail("C10", "resent-differs-from-first-transmission", fmt.Sprintf("%s: retransmission %d is %q, first transmission under %d was %q", desc, i, w, from+i, want))
+			break
+		}
+	}
+	o.Nontrivial("C10", desc)
+	o.Count("ev.reuse-resend." + kind)
+	h.Stop()
+}
+
 func min(a, b int) int {
 	if a < b {
 		return a
@@ -840,6 +912,7 @@ func main() {
 		runHistory(r, o, i)
 		if i%10 == 0 {
 			raceLogout(r, o, i%20 == 0)
+			reuseResend(r, o, i%20 == 0)
 		}
 	}
 }
